@@ -265,7 +265,7 @@ Qed.
 (** ------------------------------------------------------------ the operations covered by the full invariant *)
 Definition link_op (o : op) : bool :=
   match o with
-  | OClone _ _ | ONormalize _ | OSplitText _ _ | ORename _ _ _ _ => false
+  | OClone _ _ | ONormalize _ | OSplitText _ _ | ORename _ _ _ _ | OSetAttr _ _ _ | ORemoveAttr _ _ => false
   | _ => true
   end.
 
@@ -285,41 +285,55 @@ Proof. intros h n a b h' r W. unfold cd_delete. destruct (n_ro _); [same|]. dest
 Lemma GW_cd_insert : forall h n a s h' r, WFheap h -> cd_insert h n a s = (h', r) -> GW h h'.
 Proof. intros h n a s h' r W. unfold cd_insert. destruct (n_ro _); [same|]. destruct (N.ltb _ _); [same|updok]. Qed.
 
-Lemma step_GW : forall h o h' r, WFheap h -> link_op o = true -> step h o = (h', r) -> GW h h'.
+Lemma sib_pres_oelem v : sib_pres (set_oelem v). Proof. intros []; split; reflexivity. Qed.
+Lemma sib_pres_dead v : sib_pres (set_dead v). Proof. intros []; split; reflexivity. Qed.
+#[export] Hint Resolve sib_pres_oelem sib_pres_dead : upres.
+
+Ltac splitw := match goal with |- (if ?b then _ else _) = _ -> _ => destruct b eqn:Ev; [|same] end.
+
+Lemma step_GW : forall h o h' r, WFheap h -> link_op o = true -> covered h o = true -> step h o = (h', r) -> GW h h'.
 Proof.
-  intros h o h' r W Hl. unfold step, step_cfg, valid, ovalid.
-  destruct o; try discriminate Hl.
+  intros h o h' r W Hl Hc. unfold step, step_cfg.
+  destruct o; try discriminate Hl; cbn [covered] in Hc.
   - (* create *)
-    destruct (_ <? _); [|same]. unfold create, alloc, fresh.
+    splitw. unfold create, alloc, fresh.
     destruct (n_ty (nd h doc)); try same.
     destruct t; try same; try (destruct (valid_name nm); [|same]);
       intros [= <- _]; (split; [|rewrite app_length; lia]);
       apply (WF_alloc (length h) h); try (apply WF_self; assumption); try reflexivity; cbn; discriminate.
-  - destruct (Nat.ltb_spec p (length h)); cbn [andb]; [|same].
-    destruct (Nat.ltb_spec c (length h)); cbn [andb]; [|same].
-    match goal with |- (if ?b then _ else _) = _ -> _ => destruct b end; [|same].
-    unfold v_insert. intros E. apply GW_of. eapply WF_ins; [apply WF_self; exact W| | |exact E]; assumption.
-  - destruct (Nat.ltb_spec p (length h)); cbn [andb]; [|same].
-    destruct (Nat.ltb_spec c (length h)); [|same].
-    unfold v_insert. intros E. apply GW_of. eapply WF_ins; [apply WF_self; exact W| | |exact E]; assumption.
-  - destruct (Nat.ltb_spec p (length h)); cbn [andb]; [|same].
-    destruct (_ <? _); [|same]. intros E. apply GW_of. eapply WF_v_remove; [apply WF_self; exact W| |exact E]. assumption.
-  - destruct (Nat.ltb_spec p (length h)); cbn [andb]; [|same].
-    destruct (Nat.ltb_spec n (length h)); cbn [andb]; [|same].
-    destruct (_ <? _); [|same]. intros E. apply GW_of. eapply WF_v_replace; [apply WF_self; exact W| | |exact E]; assumption.
-  - destruct (_ && _); [|same]. unfold cd_set. destruct (n_ro _); [same|updok].
-  - destruct (_ && _); [|same]. unfold cd_append. destruct (n_ro _); [same|updok].
-  - destruct (_ && _); [|same]. apply GW_cd_insert; assumption.
-  - destruct (_ && _); [|same]. apply GW_cd_delete; assumption.
-  - destruct (_ && _); [|same]. unfold cd_replace. destruct (n_ro (nd h n)); [same|].
+  - splitw. rewrite !andb_true_iff in Ev. destruct Ev as [[Ev1 Ev2] Ev3].
+    unfold v_insert. intros E. apply GW_of. eapply WF_ins; [apply WF_self; exact W| | |exact E]; apply valid_lt; assumption.
+  - splitw. rewrite !andb_true_iff in Ev. destruct Ev as [Ev1 Ev2].
+    unfold v_insert. intros E. apply GW_of. eapply WF_ins; [apply WF_self; exact W| | |exact E]; apply valid_lt; assumption.
+  - splitw. rewrite !andb_true_iff in Ev. destruct Ev as [Ev1 Ev2].
+    intros E. apply GW_of. eapply WF_v_remove; [apply WF_self; exact W| |exact E]. apply valid_lt; assumption.
+  - splitw. rewrite !andb_true_iff in Ev. destruct Ev as [[Ev1 Ev2] Ev3].
+    intros E. apply GW_of. eapply WF_v_replace; [apply WF_self; exact W| | |exact E]; apply valid_lt; assumption.
+  - match goal with |- (if ?b then _ else _) = _ -> _ => destruct b eqn:Ev end.
+    + unfold cd_set. destruct (n_ro _); [same|updok].
+    + match goal with |- (if ?b then _ else _) = _ -> _ => destruct b eqn:Ev2; [|same] end.
+      exfalso. rewrite andb_true_iff in Ev2. destruct Ev2 as [_ Ev2]. rewrite Ev2 in Hc. discriminate.
+  - splitw. unfold cd_append. destruct (n_ro _); [same|updok].
+  - splitw. apply GW_cd_insert; assumption.
+  - splitw. apply GW_cd_delete; assumption.
+  - splitw. unfold cd_replace. destruct (n_ro (nd h n)); [same|].
     destruct (cd_delete h n off cnt) as [h1 r1] eqn:E1. pose proof (GW_cd_delete _ _ _ _ _ _ W E1) as G1.
     destruct (is_err r1); [intros [= <- _]; exact G1|]. intros E2. eapply GW_trans; [exact G1|].
     eapply GW_cd_insert; [exact (proj1 G1)|exact E2].
-  - destruct (_ && _); [|same]. unfold cd_substring. destruct (N.ltb _ _); same.
-  - destruct (_ && _); [|same]. unfold set_attribute. destruct (n_ro _); [same|].
-    destruct (attr_get _ _); [updok|]. destruct (valid_name nm); [updok|same].
-  - destruct (_ && _); [|same]. unfold remove_attribute. destruct (n_ro _); [same|updok].
-  - destruct (_ && _); [|same]. unfold get_attribute. same.
+  - splitw. unfold cd_substring. destruct (N.ltb _ _); same.
+  - splitw. unfold get_attribute. same.
+  - splitw. unfold set_attribute_node, amap_set. destruct (n_ro (nd h e)); [same|].
+    destruct (negb (oid_eqb _ _)); [same|]. destruct (match n_oelem (nd h a) with Some o => _ | None => false end); [same|].
+    assert (P1 : WF (length h) (upd h a (set_oelem (Some e)))) by (apply WF_upd_pres; auto with upres; apply WF_self; assumption).
+    match goal with |- context [upd ?H e (set_attrs ?L)] =>
+      assert (P2 : WF (length h) (upd H e (set_attrs L))) by (apply WF_upd_pres; auto with upres) end.
+    destruct (amap_find _ _ _) as [p|]; [|intros [= <- _]; apply GW_of; exact P2].
+    destruct (Nat.eqb p a); intros [= <- _]; apply GW_of; [exact P2|]. apply WF_upd_pres; auto with upres.
+  - splitw. unfold remove_attribute_node. destruct (n_ro _); [same|].
+    destruct (if n_nsimpl (nd h a) then _ else _) as [f|]; [|same].
+    destruct (Nat.eqb f a); [|same]. intros [= <- _]. apply GW_of.
+    apply WF_upd_pres; auto with upres. apply WF_upd_pres; auto with upres. apply WF_self; assumption.
+  - splitw. unfold get_attribute_node. same.
 Qed.
 
 Lemma WFheap_init : forall n, WFheap (init_heap n).
@@ -338,11 +352,12 @@ Proof.
   - intros c _ _. unfold sv. destruct (Nd c) as [-> | ->]; reflexivity.
 Qed.
 
-Lemma run_WFheap : forall l h h' rs, WFheap h -> forallb link_op l = true -> run_cfg cfg_fixed h l = (h', rs) -> WFheap h'.
+Lemma run_WFheap : forall l h h' rs, WFheap h -> forallb (fun o => link_op o && no_attr_value_op o) l = true ->
+  run_cfg cfg_fixed h l = (h', rs) -> WFheap h'.
 Proof.
   induction l as [|o l IH]; intros h h' rs W Hl; cbn [run_cfg].
   - intros [= <- _]; assumption.
-  - cbn [forallb] in Hl. apply andb_prop in Hl. destruct Hl as [Ho Hl].
-    destruct (step_cfg cfg_fixed h o) as [h1 x] eqn:E. destruct (step_GW _ _ _ _ W Ho E) as [W1 _].
+  - cbn [forallb] in Hl. apply andb_prop in Hl. destruct Hl as [Ho Hl]. apply andb_prop in Ho. destruct Ho as [Ho1 Ho2].
+    destruct (step_cfg cfg_fixed h o) as [h1 x] eqn:E. destruct (step_GW _ _ _ _ W Ho1 (covered_of h o Ho2) E) as [W1 _].
     destruct (run_cfg cfg_fixed h1 l) as [h2 xs] eqn:E2. intros [= <- _]. eapply IH; eauto.
 Qed.
